@@ -277,6 +277,8 @@ func (x *Exec) siteIDs() {
 				}
 			case *ssa.Return:
 				name = "return"
+			case *ssa.If:
+				name = "if"
 			}
 			if st, ok := in.(*ssa.Store); ok {
 				// stores into a field are also addressable as "store:<field>" (for "at" clauses)
@@ -494,6 +496,9 @@ func (x *Exec) run(s *State, b *ssa.BasicBlock, pred *ssa.BasicBlock, stop *ssa.
 			}
 			switch t := in.(type) {
 			case *ssa.If:
+				if !x.atSite(s, in) {
+					return arrived
+				}
 				c := x.val(s, t.Cond).S
 				if c == "true" {
 					next = b.Succs[0]
